@@ -266,6 +266,9 @@ fn check(case: &C01Case) -> CaseOutcome
         None => max_e + 1,
     };
     let exhausted = n_missing > 0 && start + n_missing - 1 > u32::MAX as u128;
+    // exactly reaching the last value: the statement allows either outcome (a run may refuse to
+    // hand out 4294967295 itself), but whatever was inserted must still be unique and in range
+    let edge = n_missing > 0 && start + n_missing - 1 == u32::MAX as u128;
     // range
     for (rel, id) in &inserted
     {
@@ -317,6 +320,14 @@ fn check(case: &C01Case) -> CaseOutcome
             ));
         }
     }
+    else if edge
+    {
+        o.class("range-exactly-used-up");
+        if run.exit.success() && inserted.len() as u128 != n_missing
+        {
+            devs.push(dev("missing-not-all-inserted", format!("exit 0 but {} statement(s) lack a reference and {} token(s) were inserted", n_missing, inserted.len())));
+        }
+    }
     else
     {
         if !run.exit.success()
@@ -329,7 +340,7 @@ fn check(case: &C01Case) -> CaseOutcome
         }
     }
     // C17 judges panics; for the exhaustion case a panic counts as "fails" here
-    if exhausted
+    if exhausted || edge
     {
         devs.retain(|d| d.signature != "panic");
     }
